@@ -191,12 +191,46 @@ def plib(p):
 # ---------------------------------------------------------------- generators
 
 
+# Probability that a generated numeric literal is a float or bool numerically equal to the integer
+# drawn (1 -> 1.0 / True).  Such literals compare and hash equal - and so do the library expressions
+# holding them - without being the same value.  Set by checks that compare results type-sensitively
+# or on rows where int and float arithmetic differ; 0 keeps the pure-integer language (C12).
+LIT_KINDS = 0.0
+
+
+def other_kind(v, rng):
+    """A numerically equal value of another Python type."""
+    kinds = [int(v), float(v)] + ([bool(v)] if v in (0, 1) else [])
+    kinds = [k for k in kinds if type(k) is not type(v)]
+    return rng.choice(kinds)
+
+
+def gen_lit(rng, lo, hi):
+    v = rng.randint(lo, hi)
+    if LIT_KINDS and rng.random() < LIT_KINDS:
+        return other_kind(v, rng)
+    return v
+
+
+def reflavour(node, rng):
+    """Copy of an expression / predicate / program AST in which literals are replaced (each with
+    probability 0.7) by numerically equal values of another type: a look-alike that compares equal
+    to the original wherever equality is value equality."""
+    if not isinstance(node, list):
+        return node
+    if node and node[0] == "lit" and isinstance(node[1], (int, float)):
+        return ["lit", other_kind(node[1], rng) if rng.random() < 0.7 else node[1]]
+    if node and node[0] == "inrange":
+        return ["inrange", reflavour(node[1], rng), node[2], *node[3:]]
+    return [reflavour(x, rng) for x in node]
+
+
 def gen_e(rng, cols, depth=2, need_col=False, lit_range=(-3, 3)):
     cols = sorted(cols)
     if depth <= 0 or rng.random() < 0.35:
         if cols and (need_col or rng.random() < 0.75):
             return ["ref", rng.choice(cols)]
-        return ["lit", rng.randint(*lit_range)]
+        return ["lit", gen_lit(rng, *lit_range)]
     k = rng.choice(["neg", "add", "sub", "mul"])
     if k == "neg":
         return ["neg", gen_e(rng, cols, depth - 1, need_col, lit_range)]
@@ -222,7 +256,7 @@ def gen_p(rng, cols, depth=2, wild_ranges=False, leaf_lits=True):
         if r2 < 0.88:
             return ["inrange", gen_e(rng, cols, 1), gen_range(rng, wild_ranges), rng.choice(["factory", "factory", "ctor"])]
         if rng.random() < 0.35:
-            items = [["lit", rng.randint(-3, 3)] for _ in range(rng.randint(0, 3))]  # all-literal sequence
+            items = [["lit", gen_lit(rng, -3, 3)] for _ in range(rng.randint(0, 3))]  # all-literal sequence
         else:
             items = [gen_e(rng, cols, 1) for _ in range(rng.randint(0, 3))]
         return ["inseq", gen_e(rng, cols, 1), items, rng.choice(["list", "tuple"])]
